@@ -21,6 +21,8 @@ var (
 	reAll9       = regexp.MustCompile(`(^|[^0-9.])0*\.?0*9`)
 	reSFlag      = regexp.MustCompile(`(?i)\ss\s*\]`)
 	reSlashStar  = regexp.MustCompile(`/\s+\*`)
+	rePlusGlue   = regexp.MustCompile(`\([^)]*[0-9a-zA-Z%]\+[0-9.]`)
+	reDashFamily = regexp.MustCompile(`\s-[A-Za-z][A-Za-z0-9-]*\s+[A-Za-z]`)
 )
 
 func classify(f *Finding, input string, cfg Config) {
@@ -38,6 +40,10 @@ func classify(f *Finding, input string, cfg Config) {
 		f.ID = "N05"
 	case has("fusion:") && (strings.Contains(rawIn, "/**/") || strings.Contains(input, "/*")) && (f.Kind == "selector" || strings.HasPrefix(sig, "opaque-block:") || strings.HasPrefix(sig, "junk:") || strings.HasPrefix(sig, "custom-property:")):
 		f.ID = "N06"
+	case oddUnit(in) && (has("number:") || has("tokens-") || has("zero-unit") || has("output-not-in-grammar") || has("fusion:")):
+		f.ID = "N18"
+	case rePlusGlue.MatchString(in) && (has("number:") || has("fusion:") || has("tokens-")):
+		f.ID = "N19"
 	case strings.Contains(low, "lightslateblue"):
 		f.ID = "K21"
 	case f.Family == "unicode-range" && has("output-not-in-grammar"):
@@ -58,6 +64,8 @@ func classify(f *Finding, input string, cfg Config) {
 		f.ID = "N13"
 	case f.Family == "border-color" && strings.Contains(low, "currentcolor") && has("output-not-in-grammar"):
 		f.ID = "N02"
+	case f.Family == "font" && has("output-not-in-grammar") && reDashFamily.MatchString(in):
+		f.ID = "N17"
 	case (f.Family == "font-family" || f.Family == "font") && reQuotedKw.MatchString(in) && has("family:"):
 		f.ID = "K23"
 	case reHslNumbers.MatchString(in) && (has("color:") || has("tokens-") || has("output-not-in-grammar")):
@@ -167,6 +175,23 @@ func farPctNotPlainInt(decl string) bool {
 	for _, m := range reFarPct.FindAllStringSubmatch(decl, -1) {
 		if !rePlainInt.MatchString(m[2]) {
 			return true
+		}
+	}
+	return false
+}
+
+// oddUnit: a dimension whose unit is not made of ASCII letters only (escape, digit, '-', '_').
+func oddUnit(decl string) bool {
+	for _, t := range Tokenize(preprocess(decl)) {
+		if t.K != KDimension {
+			continue
+		}
+		u := t.Raw[len(t.NumRepr):]
+		for i := 0; i < len(u); i++ {
+			c := u[i]
+			if !(c >= 'a' && c <= 'z' || c >= 'A' && c <= 'Z') {
+				return true
+			}
 		}
 	}
 	return false
